@@ -144,15 +144,37 @@ def run(ctx):
         for p in conformance_problems(rr, sem):
             n_viol += 1
             ctx.violation("corpus:" + c.id + ":" + re.sub(r"[^A-Za-z_. ]", "", p)[:40], f"corpus {c.id} :: {p}", {"corpus_case": c.id, "problem": p})
-    ctx.cov["distribution"] = {"generated": len(cases), "corpus_ok": done, "corpus_engine_errors": errs}
+    # --- operator zoo: templates beyond the modelled subset (joins, exists_in, aggregations, analytic, validation, time operators…)
+    import zoo
+    zoo_hist = {}
+    for name, script, st, dps in zoo.cases(ctx.rng, n_draws=2 if q else 40):
+        rr = engine.run_case(script, st, dps, return_only_persistent=False)
+        if not rr["ok"]:
+            zoo_hist[name] = zoo_hist.get(name, 0)
+            continue
+        zoo_hist[name] = zoo_hist.get(name, 0) + 1
+        sem = engine.semantic_case(script, st)
+        ctx.count(("zoo", name, repr(sorted((k, v.to_json()) for k, v in dps.items()))))
+        for p in conformance_problems(rr, sem):
+            n_viol += 1
+            ctx.violation(f"zoo:{name}:" + re.sub(r"[^A-Za-z_. ]", "", p)[:50], f"{script.strip()[-200:]} :: {p}",
+                          {"template": name, "script": script, "structures": st, "inputs": {k: v.to_dict(orient="list") for k, v in dps.items()}, "problem": p})
+    ctx.cov["distribution"] = {"generated": len(cases), "corpus_ok": done, "corpus_engine_errors": errs, "zoo_template_runs_ok": zoo_hist}
     ctx.cov["rule"] = ("generated scripts (exprk generator) and corpus scripts with their data (return_only_persistent=False): every returned dataset vs "
                        "semantic_analysis() (names, roles, types, nullability, order; data columns in component order), every value inhabits its type, "
                        "identifiers non-null and unique, non-nullable components non-null, no-identifier datasets ≤ 1 datapoint; names_of vs "
-                       "semantic_analysis() on every generated script; distinct = script+data")
+                       "semantic_analysis() on every generated script; the same predicate over every operator-zoo template (joins, exists_in, aggregations, "
+                       "analytic, validation, time operators, conditionals, casts) on random data; distinct = script+data")
     ctx.oblige("predicate evaluated on engine output for every case", True)
 
 
 def replay(ctx, obj):
+    if "template" in obj:
+        dps = {k: pd.DataFrame(v).astype(object) for k, v in obj["inputs"].items()}
+        ps = conformance_problems(engine.run_case(obj["script"], obj["structures"], dps, return_only_persistent=False),
+                                  engine.semantic_case(obj["script"], obj["structures"]))
+        print(obj["script"], "->", ps or "conforms")
+        return 1 if ps else 0
     if "case" in obj:
         c = exprk.case_from_json(obj["case"])
         ps = conformance_problems(exprk.run_engine(c), engine.semantic_case(c["script"], c["structs"]))
